@@ -64,13 +64,13 @@ class Renderer(object):
             elif ln["c"] == "Step":
                 ln["alias"] = rnd.choice(good[ln["a"]])
             if ln["c"] == "_":
-                ln["blank"] = u"" if entry == "tags" else rnd.choice([u"", u"   ", u"\t"])
+                ln["blank"] = rnd.choice([u"", u"   ", u"\t"])
             t, kw = render.to_text(ln, a, b, texts, rnd)
             ln["kw"] = kw
             out.append(t)
             spec.append(render.spec_line(ln))
         text = u"\n".join(out)
-        if entry != "tags" and out and rnd.random() < 0.5:
+        if out and rnd.random() < 0.5:
             text += u"\n"
         return text, spec, l1, l2
 
@@ -190,7 +190,7 @@ def run(chk):
     n_enum = len(jobs)
     # (2) well-formed documents: mutations + catalogued fault injections at every position
     bases = docs.base_documents(chk, rnd, quick, by_code)
-    per_doc = 400 if quick else 1500
+    per_doc = 300 if quick else 1500
     for base in bases:
         add("base", "feature", base)
         for kind, lines, fl in mutations(base, alphabet, rnd, per_doc):
@@ -202,7 +202,7 @@ def run(chk):
         for kind, lines, fl in mutations(base, alphabet, rnd, 150 if quick else 600):
             add(kind, entry, lines, fl)
     # (3) soups
-    for _ in range(6000 if quick else 60000):
+    for _ in range(4000 if quick else 60000):
         entry = rnd.choice(["feature"] * 6 + ["rule", "scenario", "steps", "steps", "tags"])
         add("soup", entry, soup(rnd, alphabet, bases if entry == "feature" else [b for e, b in frags if e == entry]))
 
@@ -256,7 +256,7 @@ def run(chk):
     chk.extra["spec_error_branches_never_reached"] = [w for w in reasons if not any(c["k"] == "error" and c["why"] == w for c in cases)]
     chk.extra["predicted_crash_sites"] = {w: sum(1 for c in cases if c["k"] == "crash" and c["site"] == w)
                                           for w in sorted({c["site"] for c in cases if c["k"] == "crash"})}
-    chk.assumptions = ["renderings for C05 use only aliases that the keyword table reads unambiguously (alias collisions are C04's subject)",
+    chk.assumptions = ["renderings for C05 use only aliases that the keyword table (longest keyword first) reads as intended (alias handling is C04's subject)",
                        "languages without a '* ' alias (en-tx, sl, ml) are not used for soups",
                        "the language ARGUMENT of the entry points is always a known language (only the text is hostile)",
                        "fault positions are those of the catalogue in GherkinParser_Trace.FaultKind; keyword lines that the grammar "
